@@ -86,7 +86,7 @@ async fn to<F: Future>(d: Duration, what: &str, f: F) -> Result<F::Output, Strin
     tokio::time::timeout(d, f).await.map_err(|_| format!("timeout:{what}"))
 }
 
-struct Case { path: String, limit: Option<u64>, flen: u64, id: u64, qlen: Option<u64>, ec: u32, burst: bool, pipe: bool, quit: bool, park: bool, conc: u64, reps: u64 }
+struct Case { path: String, limit: Option<u64>, flen: u64, id: u64, qlen: Option<u64>, ec: u32, burst: bool, pipe: bool, quit: bool, park: bool, conc: u64, reps: u64, hist: u64, hlen: u64, upfail: u64 }
 
 /// aborts the per-case server tasks when the case is over
 struct Tasks(Vec<tokio::task::JoinHandle<()>>);
@@ -158,14 +158,21 @@ async fn run_server_path(c: &Case) -> Result<String, String> {
     if c.burst && route != "/rb" { return Err("badcase:burst".into()); }
     // pipe / quit: the two arrangements around a handler-pushed notify (see the message under test below)
     if (c.pipe || c.quit) && (c.path != "push" || (c.pipe && c.quit)) { return Err("badcase:pipe-quit".into()); }
+    // hist: a history of `hist` earlier notifies of `hlen` bytes each on the same connection (see below)
+    if c.hist != 0 && (!is_notify || c.pipe || c.quit || c.hist > 4096 || c.hlen < 48 + QLEN || c.hlen > (1 << 24)) { return Err("badcase:hist".into()); }
+    if c.upfail != 0 { return Err("badcase:upfail".into()); }
     let tlen = if is_notify { QLEN } else { route.len() as u64 };
     if c.flen < 48 + tlen { return Err("badcase:flen-too-small".into()); }
     let blen = (c.flen - 48 - tlen) as usize;
     if !is_notify && blen < 2 { return Err("badcase:flen-too-small".into()); }
     if is_notify && c.id != 0 { return Err("badcase:notify-id".into()); }
     let limits = limits_of(c.limit, c.id ^ c.flen, c.qlen.is_none());
-    let (trigger_id, marker_id, alive_id, prior_id) = (c.id.wrapping_add(1), c.id.wrapping_add(2), c.id.wrapping_add(3), c.id.wrapping_add(4));
+    let (trigger_id, marker_id, alive_id, prior_id, hist_id) = (c.id.wrapping_add(1), c.id.wrapping_add(2), c.id.wrapping_add(3), c.id.wrapping_add(4), c.id.wrapping_add(5));
     let token = repe::ShutdownToken::new();
+    let hist_body = Arc::new(if c.hist != 0 { pattern((c.hlen - 48 - QLEN) as usize) } else { vec![] });
+    // results of the history's pushes: (accepted, first refusal)
+    let hist_res: Arc<Mutex<(u64, Option<String>)>> = Arc::new(Mutex::new((0, None)));
+    let (hb, hr) = (hist_body.clone(), hist_res.clone());
 
     let notify_body = Arc::new(if is_notify { pattern(blen) } else { vec![] });
     let push_res: Arc<Mutex<Option<Result<(), String>>>> = Arc::new(Mutex::new(None));
@@ -192,6 +199,16 @@ async fn run_server_path(c: &Case) -> Result<String, String> {
                 None => Err("no-peer".to_string()),
             };
             *pr.lock().unwrap() = Some(r);
+            Ok(json!(1))
+        })
+        // hist: the handler pushes one notify of the history
+        .with_json_ctx("/ph", move |ctx, _| {
+            let r = match ctx.peer() {
+                Some(p) => p.send_notify("/n", NotifyBody::Raw((*hb).clone(), BodyFormat::RawBinary)).map_err(|e| e.to_string()),
+                None => Err("no-peer".to_string()),
+            };
+            let mut g = hr.lock().unwrap();
+            match r { Ok(()) => g.0 += 1, Err(e) => { g.1.get_or_insert(e); } }
             Ok(json!(1))
         })
         // quit: the handler pushes the notify under test, asks for the shutdown of its own connection
@@ -259,7 +276,7 @@ async fn run_server_path(c: &Case) -> Result<String, String> {
     }
 
     let (ws, _) = to(T_CONN, "raw-connect", tt::connect_async_with_config(format!("ws://{addr}/repe"), Some(big_cfg()), true)).await?.map_err(|e| format!("raw-connect:{e}"))?;
-    let mut peer = Peer { ws, known: vec![trigger_id, marker_id, alive_id, prior_id], seen: vec![], cands: vec![], dead: None };
+    let mut peer = Peer { ws, known: vec![trigger_id, marker_id, alive_id, prior_id, hist_id], seen: vec![], cands: vec![], dead: None };
     let small_reply = |id: u64, route: &[u8]| frame(0, id, 1, 2, 0, route, b"1");
 
     if c.quit {
@@ -291,6 +308,56 @@ async fn run_server_path(c: &Case) -> Result<String, String> {
     }
     let mut prior_ok = true;
 
+    // hist=N hlen=H: before the message under test the same connection carries N notifies of H bytes each
+    // (handler-pushed for path=push, registry broadcasts for path=broadcast), one at a time: each is followed
+    // by a small exchange whose reply is queued behind it, so the outbound queue is empty again before the
+    // next one. Every notify of the history is an instance of the property as well ("an oversized
+    // notification is dropped and reported", "messages at or below the limit are delivered unchanged"): the
+    // accepted ones must all have been dropped and reported (H above the limit) or delivered unchanged and
+    // not reported (otherwise). The message under test is then an ordinary case of the model: the reports
+    // counted for it are those after the history.
+    let mut notes = String::new();
+    if c.hist != 0 {
+        let hexpected = frame(1, 0, 1, 0, 0, b"/n", &hist_body);
+        if c.path == "broadcast" {
+            let t0 = Instant::now();
+            while registry.len() != 1 {
+                if t0.elapsed() > T_CONN { return Err(format!("registry-len:{}", registry.len())); }
+                tokio::time::sleep(Duration::from_millis(2)).await;
+            }
+        }
+        for j in 0..c.hist as usize {
+            if c.path == "broadcast" {
+                let res = registry.broadcast_notify_raw("/n", BodyFormat::RawBinary, &hist_body);
+                if res.len() != 1 { return Err(format!("history-broadcast-peers:{}", res.len())); }
+                let mut g = hist_res.lock().unwrap();
+                match res.into_values().next() { Some(Ok(())) => g.0 += 1, Some(Err(e)) => { g.1.get_or_insert(e.to_string()); } None => {} }
+                drop(g);
+                peer.send(frame(0, hist_id, 1, 2, 0, b"/k", b"null")).await?;
+            } else {
+                peer.send(frame(0, hist_id, 1, 2, 0, b"/ph", b"null")).await?;
+            }
+            peer.pump(Instant::now() + T_MSG, |p| p.count(hist_id) > j).await;
+            if peer.count(hist_id) <= j { return Err(format!("history-no-reply:{j}:dead={}", peer.dead.clone().unwrap_or_default())); }
+        }
+        let (accepted, refused) = hist_res.lock().unwrap().clone();
+        let reports = too_large.load(Ordering::SeqCst) as u64;
+        let hover = c.limit.is_some_and(|l| c.hlen > l);
+        if hover {
+            if !peer.cands.is_empty() { return Err(format!("history-oversized-notify-sent:{}", peer.cands.iter().map(|m| hx(m.len() as u64)).collect::<Vec<_>>().join(","))); }
+            if reports != accepted { return Err(format!("history-reports:{}-for-{}-dropped", hx(reports), hx(accepted))); }
+        } else {
+            if peer.cands.len() as u64 != accepted || peer.cands.iter().any(|m| *m != hexpected) { return Err(format!("history-delivery:{}-messages-for-{}-notifies", hx(peer.cands.len() as u64), hx(accepted))); }
+            if reports != 0 { return Err(format!("history-reports:{}-for-0-dropped", hx(reports))); }
+        }
+        peer.cands.clear();
+        // a push of the history that the connection did not accept is not judged by itself (noted only)
+        if let Some(e) = refused { notes.push_str(&format!(" hacc={} href={}", hx(accepted), clean(e))); }
+    }
+    let reports_before = too_large.load(Ordering::SeqCst);
+    // hist cases: a message under test that the connection does not accept is an observation (nothing sent)
+    let mut not_accepted: Option<String> = None;
+
     // the message under test
     let expected: Vec<u8> = match c.path.as_str() {
         "inline" | "proxy" | "offreader" => {
@@ -319,7 +386,7 @@ async fn run_server_path(c: &Case) -> Result<String, String> {
             }
             let res = registry.broadcast_notify_raw("/n", BodyFormat::RawBinary, &notify_body);
             if res.len() != 1 { return Err(format!("broadcast-peers:{}", res.len())); }
-            if let Some(Err(e)) = res.values().next() { return Err(format!("broadcast-send:{e}")); }
+            if let Some(Err(e)) = res.values().next() { if c.hist != 0 { not_accepted = Some(e.to_string()); } else { return Err(format!("broadcast-send:{e}")); } }
             frame(1, 0, 1, 0, 0, b"/n", &notify_body)
         }
         other => return Err(format!("badcase:path:{other}")),
@@ -341,16 +408,87 @@ async fn run_server_path(c: &Case) -> Result<String, String> {
     if c.path == "push" {
         match push_res.lock().unwrap().clone() {
             Some(Ok(())) => {}
+            Some(Err(e)) if c.hist != 0 => not_accepted = Some(e),
             Some(Err(e)) => return Err(format!("push-send:{e}")),
             None => return Err(format!("push-handler-not-run:dead={}", peer.dead.clone().unwrap_or_default())),
         }
     }
     let sent = sent_token(&peer.cands, &expected)?;
-    let n = too_large.load(Ordering::SeqCst);
+    let n = too_large.load(Ordering::SeqCst) - reports_before;
     let mut obs = format!("sent={} rep={} alive={}", sent, (n > 0) as u8, (alive && prior_ok) as u8);
     if n > 1 { obs.push_str(&format!(" repn={}", hx(n as u64))); }
     if !prior_ok { obs.push_str(" stuck=prior"); }
+    if let Some(e) = &not_accepted { obs.push_str(&format!(" refused={}", clean(e))); }
+    obs.push_str(&notes);
     if let Some(d) = &peer.dead { obs.push_str(&format!(" dead={}", clean(d))); }
+    Ok(obs)
+}
+
+/// `path=proxy upfail=K qlen=Q`: the proxy's upstream fails underneath a request in flight. The upstream is
+/// a raw TCP listener that never answers: it closes the connection after reading the request's 48-byte
+/// header (K=1), after reading the whole request (K=2), after reading the whole request and writing the
+/// first 20 bytes of a response (K=3), or as soon as it has accepted, without reading (K=4). The request
+/// carries a query of Q bytes (the assumed peer limit bounds what the proxy SENDS downstream, not what it
+/// receives). The model does not describe a failing upstream, so nothing is required of the proxy here
+/// (an answer, a close, a dropped socket) except what the property says of every moment: "no binary
+/// message larger than the limit is ever sent by a server, proxy or client". The observation is the list
+/// of the sizes of all binary messages the raw downstream peer received until the connection ended.
+async fn run_proxy_upfail(c: &Case) -> Result<String, String> {
+    // the downstream handshake is performed by tungstenite on both sides (the proxy function is given the
+    // upgraded stream): a failure to connect there happens before the scenario starts and involves no code
+    // of the crate, so the scenario is simply set up again
+    for _ in 0..2 {
+        match run_proxy_upfail_once(c).await { Err(e) if e.starts_with("raw-connect:") => tokio::time::sleep(Duration::from_millis(50)).await, r => return r }
+    }
+    run_proxy_upfail_once(c).await
+}
+async fn run_proxy_upfail_once(c: &Case) -> Result<String, String> {
+    use tokio::io::{AsyncReadExt, AsyncWriteExt};
+    if c.path != "proxy" || !(1..=4).contains(&c.upfail) || c.ec != 0 || c.burst || c.pipe || c.quit || c.park || c.conc != 0 || c.hist != 0 { return Err("badcase:upfail".into()); }
+    let Some(qlen) = c.qlen else { return Err("badcase:upfail-qlen".into()) };
+    if !(2..=(1 << 24)).contains(&qlen) { return Err("badcase:upfail-qlen".into()); }
+    let route = format!("/{}", "r".repeat(qlen as usize - 1));
+    let limits = limits_of(c.limit, c.id ^ c.flen, false);
+    let mut tasks = Tasks(vec![]);
+    let ul = tokio::net::TcpListener::bind("127.0.0.1:0").await.map_err(|e| format!("upstream-bind:{e}"))?;
+    let uaddr = ul.local_addr().map_err(|e| format!("upstream-addr:{e}"))?;
+    let mode = c.upfail;
+    tasks.0.push(tokio::spawn(async move {
+        let Ok((mut s, _)) = ul.accept().await else { return };
+        if mode == 4 { return; }
+        let mut h = [0u8; 48];
+        if s.read_exact(&mut h).await.is_err() || mode == 1 { return; }
+        let rest = le64(&h[0..8]).saturating_sub(48).min(1 << 26) as usize;
+        let mut buf = vec![0u8; rest];
+        if s.read_exact(&mut buf).await.is_err() || mode == 2 { return; }
+        let reply = frame(0, le64(&h[16..24]), 1, 2, 0, b"/r", b"1");
+        let _ = s.write_all(&reply[..20]).await;
+        let _ = s.flush().await;
+    }));
+    let upstream = to(T_CONN, "upstream-connect", AsyncClient::connect(uaddr)).await?.map_err(|e| format!("upstream-connect:{e}"))?;
+    let l = tokio::net::TcpListener::bind("127.0.0.1:0").await.map_err(|e| format!("proxy-bind:{e}"))?;
+    let addr = l.local_addr().map_err(|e| format!("proxy-addr:{e}"))?;
+    let returned: Arc<Mutex<Option<String>>> = Arc::new(Mutex::new(None));
+    let rt = returned.clone();
+    tasks.0.push(tokio::spawn(async move {
+        if let Ok((s, _)) = l.accept().await {
+            let _ = s.set_nodelay(true);
+            if let Ok(ws) = tt::accept_async_with_config(s, Some(big_cfg())).await {
+                let r = repe::websocket_server::proxy_connection_with_limits(ws, upstream, limits).await;
+                *rt.lock().unwrap() = Some(match r { Ok(()) => "ok".to_string(), Err(e) => format!("err:{e}") });
+            }
+        }
+    }));
+    let (ws, _) = to(T_CONN, "raw-connect", tt::connect_async_with_config(format!("ws://{addr}/repe"), Some(big_cfg()), true)).await?.map_err(|e| format!("raw-connect:{e}"))?;
+    let mut peer = Peer { ws, known: vec![], seen: vec![], cands: vec![], dead: None };
+    peer.send(frame(0, c.id, 1, 2, 0, route.as_bytes(), b"null")).await?;
+    // everything the proxy sends until the connection ends (or nothing more for T_MSG)
+    peer.pump(Instant::now() + T_MSG, |_| false).await;
+    let sizes: Vec<u64> = peer.cands.iter().map(|m| m.len() as u64).collect();
+    let mut obs = format!("msgs={} max={}", hx(sizes.len() as u64), hx(sizes.iter().copied().max().unwrap_or(0)));
+    if !sizes.is_empty() { obs.push_str(&format!(" sizes={}", sizes.iter().map(|s| hx(*s)).collect::<Vec<_>>().join(","))); }
+    match &peer.dead { Some(d) => obs.push_str(&format!(" dead={}", clean(d))), None => obs.push_str(" noclose=1") }
+    if let Some(r) = returned.lock().unwrap().clone() { obs.push_str(&format!(" proxy={}", clean(r))); }
     Ok(obs)
 }
 
@@ -626,7 +764,7 @@ fn run_case(line: &str) -> String {
         let flag = |k: &str| f.get(k).map(|b| b == "1").unwrap_or(false);
         let num = |k: &str| match f.get(k) { Some(s) => ph(s), None => Some(0) };
         Some(Case { path: f.get("path")?.clone(), limit, flen: ph(f.get("flen")?)?, id: ph(f.get("id")?)?, qlen, ec: f.get("ec").and_then(|e| ph(e)).unwrap_or(0) as u32, burst: flag("burst"),
-                    pipe: flag("pipe"), quit: flag("quit"), park: flag("park"), conc: num("conc")?, reps: num("reps")? })
+                    pipe: flag("pipe"), quit: flag("quit"), park: flag("park"), conc: num("conc")?, reps: num("reps")?, hist: num("hist")?, hlen: num("hlen")?, upfail: num("upfail")? })
     })();
     let Some(c) = parsed else { return "crash=badcase:parse".into() };
     if c.flen < 48 + QLEN || c.flen > (1 << 31) { return "crash=badcase:flen".into(); }
@@ -635,7 +773,7 @@ fn run_case(line: &str) -> String {
         if c.park && !is_client { return Err("badcase:park".to_string()); }
         let (single, conc) = (c.pipe || c.quit, c.conc != 0);
         let fut = async {
-            let fut = async { if conc { run_conc(&c).await } else if is_client { run_client_path(&c).await } else if c.quit { run_quit_rounds(&c).await } else { run_server_path(&c).await } };
+            let fut = async { if c.upfail != 0 { run_proxy_upfail(&c).await } else if conc { run_conc(&c).await } else if is_client { run_client_path(&c).await } else if c.quit { run_quit_rounds(&c).await } else { run_server_path(&c).await } };
             match tokio::time::timeout(T_CASE, fut).await { Ok(r) => r, Err(_) => Err("timeout:case".into()) }
         };
         // pipe / quit: server and raw peer share ONE thread, so that the connection's reader runs up to its
@@ -739,6 +877,30 @@ fn gen_cases(seed: u64, thorough: bool) -> Vec<String> {
         for flen in [l, l + 1, 2 * l] {
             extra.push(format!("path=creq limit={} flen={} id={} ntf=0 ec=0 park=1", hx(l), hx(flen), hx(rng.range(1, 4))));
             extra.push(format!("path=cnotify limit={} flen={} id={} ntf=1 ec=0 park=1", hx(l), hx(flen), hx(rng.range(1, 4))));
+        }
+    }
+    // a notify after a long history of earlier notifies on the same connection, the queue drained after each:
+    // 70 refused ones of 1 MiB (more than 64 MiB refused in all), 320 refused ones just above the limit
+    // (more than the outbound queue holds), 32 delivered ones at the limit
+    for path in ["push", "broadcast"] {
+        for l in [0x1000u64, 0x10000] {
+            for flen in [min, l, l + 1] {
+                extra.push(format!("path={path} limit={} flen={} id=0 ntf=1 ec=0 hist=46 hlen=100032", hx(l), hx(flen)));
+            }
+        }
+        for flen in [0x400u64, 0x401] {
+            extra.push(format!("path={path} limit=400 flen={} id=0 ntf=1 ec=0 hist=140 hlen=401", hx(flen)));
+            extra.push(format!("path={path} limit=400 flen={} id=0 ntf=1 ec=0 hist=20 hlen=400", hx(flen)));
+        }
+    }
+    // the proxy's upstream fails underneath a request in flight whose query is short, about as long as the
+    // limit, or longer: whatever the proxy does then, nothing above the limit may be sent downstream
+    for l in [0x400u64, 0x1000, 0x10000] {
+        for upfail in 1..=4u64 {
+            for qlen in [8, l - 100, l - 48, l + 1, 2 * l] {
+                let id = if rng.chance(1, 3) { rng.boundary(64) } else { rng.next() };
+                extra.push(format!("path=proxy limit={} flen={} id={} ntf=0 ec=0 qlen={} upfail={upfail}", hx(l), hx(48 + qlen + 2), hx(id), hx(qlen)));
+            }
         }
     }
     for e in extra { let i = out.len(); out.push(format!("i={i} {e}")); }
